@@ -8,6 +8,7 @@ import (
 	"go/ast"
 	"go/token"
 	"go/types"
+	"strings"
 )
 
 const maxStates = 4096
@@ -743,7 +744,7 @@ func (c *ExecCtx) loopSpecFor(node ast.Node, rangeX ast.Expr) (*LoopSpec, string
 func (c *ExecCtx) dryRun(st *State, body func(*State) []*State) *recorder {
 	u := c.u
 	saved := u.recording
-	rec := &recorder{vars: map[types.Object]bool{}, heaps: map[string]bool{}, ghost: map[string]bool{}}
+	rec := &recorder{vars: map[types.Object]bool{}, heaps: map[string]bool{}, ghost: map[string]bool{}, refs: map[string][]*Term{}, whole: map[string]bool{}, startSym: u.eng.nsym}
 	u.recording = rec
 	u.quiet++
 	savedLoops := c.loops
@@ -765,6 +766,16 @@ func (c *ExecCtx) dryRun(st *State, body func(*State) []*State) *recorder {
 		}
 		for k := range rec.ghost {
 			saved.ghost[k] = true
+		}
+		for k, v := range rec.refs {
+			if saved.refs != nil {
+				saved.refs[k] = append(saved.refs[k], v...)
+			}
+		}
+		for k := range rec.whole {
+			if saved.whole != nil {
+				saved.whole[k] = true
+			}
 		}
 	}
 	return rec
@@ -800,6 +811,22 @@ func (c *ExecCtx) havocRec(st *State, rec *recorder) {
 			st.heaps[h] = na
 			continue
 		}
+		// if every write went to loop-invariant object references, only
+		// those objects are forgotten
+		if refs, ok := rec.refs[h]; ok && !rec.whole[h] && len(refs) > 0 && len(refs) <= 8 && allInvariant(refs, rec.startSym) {
+			_, vs, _ := arrayParts(cur.Sort)
+			nh := cur
+			seen := map[string]bool{}
+			for _, r := range refs {
+				if seen[r.String()] {
+					continue
+				}
+				seen[r.String()] = true
+				nh = Store(nh, r, u.fresh("hho_"+h, vs))
+			}
+			st.heaps[h] = nh
+			continue
+		}
 		st.heaps[h] = u.fresh("hh_"+h, cur.Sort)
 	}
 	for g := range rec.ghost {
@@ -819,6 +846,8 @@ func (c *ExecCtx) runLoop(st *State, node ast.Node, label string, ls *LoopSpec, 
 
 	u := c.u
 	pos := node.Pos()
+	c.loopBinds = append(c.loopBinds, binds)
+	defer func() { c.loopBinds = c.loopBinds[:len(c.loopBinds)-1] }()
 	// 1. what does one iteration modify?
 	iter := func(s *State) []*State {
 		lc := &loopCtx{label: label}
@@ -1144,4 +1173,23 @@ func (c *ExecCtx) bindLoopNames(binds map[string]Val, gk string, n *Term, coll V
 	binds["ʃkey"] = Val{Sym(gk, "GHOSTKEY"), types.Typ[types.Int]}
 	binds["ʃlen"] = Val{n, types.Typ[types.Int]}
 	binds["ʃcoll"] = coll
+}
+
+
+// allInvariant: do the terms only mention symbols created before symbol
+// number start (i.e. before the loop was entered)?
+func allInvariant(ts []*Term, start int) bool {
+	for _, t := range ts {
+		syms := map[string]bool{}
+		collectSyms(t, syms)
+		for s := range syms {
+			if i := strings.LastIndex(s, "@"); i >= 0 {
+				var n int
+				if _, err := fmt.Sscanf(s[i+1:], "%d", &n); err == nil && n > start {
+					return false
+				}
+			}
+		}
+	}
+	return true
 }
